@@ -131,7 +131,7 @@ func genC11(tier, out string, sum *Summary) {
 		cnt := 0
 		for _, a := range opt {
 			for _, b := range opt {
-				for _, st := range []int64{-4, -3, -2, -1, 1, 2, 3, 4} {
+				for _, st := range []int64{-9, -5, -4, -3, -2, -1, 1, 2, 3, 4, 5, 9} {
 					cnt++
 					if tier != "thorough" && cnt%5 != 0 && !(a == nil && b == nil) {
 						continue
@@ -149,6 +149,24 @@ func genC11(tier, out string, sum *Summary) {
 				}
 			}
 		}
+	}
+	// cut sets are sets of code points: a character that shares its first byte with one in the set stays
+	for _, c := range [][2]string{{"éa", "è"}, {"ààéa", "à"}, {"жук", "з"}, {"。、", "、"}, {"aéè", "è"}, {"éèé", "é"}, {"😀😁x", "😁"}, {"x😀😁", "😀"}, {"€₭", "₭"}, {"ab", ""}, {"  é ", " "}, {"éé", "éè"}} {
+		subj, cut := c[0], c[1]
+		d := map[string]any{"s": subj, "p": cut}
+		if cut == "" {
+			continue
+		}
+		expect("trim-cutset", "trim_left(s, p)", d, strings.TrimLeft(subj, cut))
+		expect("trim-cutset", "trim_right(s, p)", d, strings.TrimRight(subj, cut))
+		expect("trim-cutset", "trim(s, p)", d, strings.Trim(subj, cut))
+		rs, rc := []rune(subj), []rune(cut)
+		for i, j := 0, len(rs)-1; i < j; i, j = i+1, j-1 {
+			rs[i], rs[j] = rs[j], rs[i]
+		}
+		d2 := map[string]any{"s": string(rs), "p": string(rc)}
+		expect("trim-cutset", "trim_left(s, p)", d2, strings.TrimLeft(string(rs), cut))
+		expect("trim-cutset", "trim_right(s, p)", d2, strings.TrimRight(string(rs), cut))
 	}
 	// literals are text too: a backslash the grammar leaves alone, in front of code points of every width
 	for _, cp := range []string{"é", "€", "😀", "中", "\u0301", "\u00a0", "\U0010ffff", "ÿ", "z"} {
